@@ -446,3 +446,93 @@ def problem_vars(sh):
     for c in sh["cons"]:
         s |= con_mentioned(spec, spec["cons"][c])
     return s
+
+
+# --------------------------------------------------------------------------
+# independent numeric semantics of the mini-AST (no optyx involved)
+# --------------------------------------------------------------------------
+
+import math as _math
+
+_FN = {
+    "sin": _math.sin, "cos": _math.cos, "tan": _math.tan, "exp": _math.exp, "log": _math.log,
+    "sqrt": _math.sqrt, "abs": abs, "tanh": _math.tanh, "sinh": _math.sinh, "cosh": _math.cosh,
+}
+
+
+def eval_vec(spec, vec, pt):
+    t = vec[0]
+    if t == "vscale":
+        return [x * vec[2] for x in eval_vec(spec, vec[1], pt)]
+    if t == "vshift":
+        return [x + vec[2] for x in eval_vec(spec, vec[1], pt)]
+    return [pt[n] for n in vec_names(spec, vec)]
+
+
+def eval_expr(spec, e, pt, pv=None):
+    """Value of EXPR at point `pt` (name -> float) with parameter values `pv`."""
+    t = e[0]
+    if t in ("num", "const"):
+        return float(e[1])
+    if t == "var":
+        return pt[e[1]]
+    if t == "vel":
+        return pt[f"{e[1]}[{e[2]}]"]
+    if t == "mel":
+        return pt[mel_name(var_decl(spec, e[1]), e[2], e[3])]
+    if t == "param":
+        return float(pv[e[1]])
+    if t == "pel":
+        return float(pv[e[1]][e[2]])
+    if t in BINOPS:
+        a = eval_expr(spec, e[1], pt, pv)
+        b = eval_expr(spec, e[2], pt, pv)
+        if t == "+":
+            return a + b
+        if t == "-":
+            return a - b
+        if t == "*":
+            return a * b
+        if t == "/":
+            return a / b
+        return a**b
+    if t == "neg":
+        return -eval_expr(spec, e[1], pt, pv)
+    if t == "fn":
+        return _FN[e[1]](eval_expr(spec, e[2], pt, pv))
+    if t == "vsum":
+        return sum(eval_vec(spec, e[1], pt))
+    if t == "lincomb":
+        return sum(c * x for c, x in zip(e[1], eval_vec(spec, e[2], pt)))
+    if t == "dot":
+        return sum(a * b for a, b in zip(eval_vec(spec, e[1], pt), eval_vec(spec, e[2], pt)))
+    if t == "quad":
+        v = eval_vec(spec, e[1], pt)
+        return sum(v[i] * e[2][i][j] * v[j] for i in range(len(v)) for j in range(len(v)))
+    if t == "norm":
+        v = eval_vec(spec, e[1], pt)
+        return _math.sqrt(sum(x * x for x in v)) if e[2] == 2 else sum(abs(x) for x in v)
+    if t == "chain":
+        acc = eval_expr(spec, e[2][0], pt, pv)
+        for s in e[2][1:]:
+            b = eval_expr(spec, s, pt, pv)
+            acc = {"+": acc + b, "-": acc - b, "*": acc * b}[e[1]] if e[1] != "/" else acc / b
+        return acc
+    raise ValueError(f"bad EXPR {e!r}")
+
+
+def con_violations(spec, con, pt, pv=None):
+    """List of violation amounts (>= 0) of a pool constraint at pt."""
+    if con["k"] == "s":
+        vals = [eval_expr(spec, con["lhs"], pt, pv) - eval_expr(spec, con["rhs"], pt, pv)]
+    else:
+        vals = [x - con["rhs"] for x in eval_vec(spec, con["lhs"], pt)]
+    out = []
+    for v in vals:
+        if con["sense"] == "<=":
+            out.append(max(0.0, v))
+        elif con["sense"] == ">=":
+            out.append(max(0.0, -v))
+        else:
+            out.append(abs(v))
+    return out
